@@ -12,7 +12,8 @@ generated from the current source and a toy pickle codec.  Stateful line protoco
   crash <pid> <0|mid|full>                   SIGKILL (inside pickle.dump: that much has been written)
   file                                       class of the cache file now: missing | valid:<keys> | stale | wrongtype | raises:<Exc>
   proc <pid>                                 `<pc-action> <answers k=c,…>`
-  explore <withCrash 0|1> <maxStates>        exhaustive search of ALL interleavings from the current state:
+  explore <mode 0|1|2> <maxStates>           exhaustive search of ALL interleavings (1: + kills and I/O errors; 2: + wipes, checks
+                                             only 'nobody fatal') from the current state:
                                              `safe states=<n>` | `unsafe <what> after <schedule>` | `limit`
   guards <quick|config>                      the generated guards (repr)
   issub <E> <C>                              `issubclass(E, C)` in the model's exception hierarchy; `excs` lists the enum
@@ -145,6 +146,8 @@ deriving instance Hashable for St
 def lblStr : Lbl → String
   | .run i => s!"r{i}"
   | .crash i n => s!"k{i}/{n}"
+  | .fail i e n => s!"f{i}/{e.name}/{n}"
+  | .wipe => "w"
 
 def badState (s : St) : Option String :=
   let rec go (i : Nat) : List Proc → Option String
@@ -167,22 +170,35 @@ def badState (s : St) : Option String :=
       | .raises _ => none)
     | none => none
 
-def labelsOf (G : Guards) (s : St) (withCrash : Bool) : List Lbl :=
+def failable : PC → Bool
+  | .lAcquire | .lOpen | .wAcquire | .wOpenR | .wTrunc | .wWrite => true
+  | _ => false
+
+/-- mode 0: run steps only; 1: + kills and I/O errors; 2: + `wipe` (a cache-disabled process removes the folder) -/
+def labelsOf (G : Guards) (s : St) (mode : Nat) : List Lbl :=
   let n := s.procs.length
   let runs := (List.range n).map Lbl.run
-  if withCrash then
+  if mode ≥ 1 then
     runs ++ (List.range n).flatMap (fun i =>
       match s.procs[i]? with
       | some p =>
-        if p.pc == .wWrite && !G.w.atomicWrite then
-          let len := (toyEnv.pickle (written toyEnv p)).length
-          [Lbl.crash i 0, Lbl.crash i (len / 2), Lbl.crash i len]
-        else [Lbl.crash i 0]
-      | none => [])
+        let len := (toyEnv.pickle (written toyEnv p)).length
+        (if p.pc == .wWrite && !G.w.atomicWrite then
+          [Lbl.crash i 0, Lbl.crash i (len / 2), Lbl.crash i len, Lbl.fail i .OSError 0, Lbl.fail i .OSError (len / 2)]
+        else [Lbl.crash i 0] ++ (if failable p.pc then [Lbl.fail i .OSError 0] else []))
+      | none => []) ++ (if mode ≥ 2 then [Lbl.wipe] else [])
   else runs
 
+def fatalState (s : St) : Option String :=
+  let rec go (i : Nat) : List Proc → Option String
+    | [] => none
+    | p :: ps => (match p.pc with
+      | .fatal e => some s!"process {i} fatal {e.name}"
+      | _ => go (i + 1) ps)
+  go 0 s.procs
+
 /-- DFS with a visited set; returns (visited, result) -/
-partial def explore (G : Guards) (withCrash : Bool) (limit : Nat) (s0 : St) : String := Id.run do
+partial def explore (G : Guards) (mode : Nat) (limit : Nat) (s0 : St) : String := Id.run do
   let mut visited : Std.HashSet St := {}
   let mut stack : List (St × List Lbl) := [(s0, [])]
   let mut deadlock : Option String := none
@@ -194,11 +210,11 @@ partial def explore (G : Guards) (withCrash : Bool) (limit : Nat) (s0 : St) : St
       if visited.contains s then continue
       visited := visited.insert s
       if visited.size > limit then return s!"limit states={visited.size}"
-      match badState s with
+      match (if mode ≥ 2 then fatalState s else badState s) with
       | some w => return s!"unsafe {w} after {" ".intercalate (path.reverse.map lblStr)}"
       | none => pure ()
       let mut anyRun := false
-      for l in labelsOf G s withCrash do
+      for l in labelsOf G s mode do
         match gstep toyEnv G s l with
         | some s' =>
           if let .run _ := l then anyRun := true
@@ -237,7 +253,14 @@ def stepLine (ds : DS) : List String → DS × String
        | some p =>
          let (pa, pr) := predict ds p
          let pr := if act == "dump" && res == "?" then "?" else pr
-         if pa != act then (ds, s!"mismatch process {i}: implementation does '{act}' where the model is at '{pa}'")
+         -- an I/O error of the implementation at this action (injected or real): the model's `fail` step
+         let ioErr := ioExcs.any (fun e => e.name == res) && failable p.pc && pa == act &&
+                      !(res == "FileNotFoundError" && pr == "FileNotFoundError")
+         if ioErr then
+           (match gstep toyEnv ds.G ds.st (.fail i (Exc.ofName res) 0) with
+            | some s' => ({ ds with st := s' }, "ok")
+            | none => (ds, s!"mismatch process {i}: I/O error '{res}' at '{act}' is not enabled in the model"))
+         else if pa != act then (ds, s!"mismatch process {i}: implementation does '{act}' where the model is at '{pa}'")
          else if pr != res then (ds, s!"mismatch process {i}: '{act}' gives '{res}' in the implementation, '{pr}' in the model")
          else if act == "exit" then (ds, "ok")
          else match gstep toyEnv ds.G ds.st (.run i) with
@@ -256,6 +279,9 @@ def stepLine (ds : DS) : List String → DS × String
        | none => (ds, "mismatch crash not enabled"))
   | ["issub", e, c] => (ds, if Exc.isSub (Exc.ofName e) (Exc.ofName c) then "1" else "0")
   | ["excs"] => (ds, " ".intercalate (Exc.all.map (·.name)))
+  | ["wipe"] => (match gstep toyEnv ds.G ds.st .wipe with
+                 | some s' => ({ ds with st := s' }, "ok")
+                 | none => (ds, "mismatch"))
   | ["file"] => (ds, fileClass ds.st.sh.file)
   | ["proc", pid] =>
     (match pid.toNat? with
@@ -265,7 +291,7 @@ def stepLine (ds : DS) : List String → DS × String
        | none => (ds, "bad-op"))
   | ["explore", wc, lim] =>
     (match lim.toNat? with
-     | some l => (ds, explore ds.G (wc == "1") l ds.st)
+     | some l => (ds, explore ds.G (wc.toNat?.getD 0) l ds.st)
      | none => (ds, "bad-op"))
   | _ => (ds, "bad-op")
 
